@@ -38,6 +38,10 @@ var (
 	ends   = map[string]int{}
 )
 
+// the TLC memory-operand case the current run belongs to (classes of spec/EvmGasGen.tla), if any
+var noCase = map[string]interface{}{"op": "", "a": "", "b": "", "c": ""}
+var curCase = noCase
+
 type job struct {
 	kind   string
 	code   []byte
@@ -65,7 +69,7 @@ func execute(j job) {
 	st.CreateAccount(eu.Addr(3))
 	st.SetCode(eu.Addr(3), []byte{eu.PUSH1, 64, eu.PUSH1, 0, eu.RETURN})
 	evm := eu.NewEVM(st, height, j.gas)
-	tr.Emit(map[string]interface{}{"event": "Begin", "run": runID, "kind": j.kind, "gas": eu.GasDigits(j.gas),
+	tr.Emit(map[string]interface{}{"event": "Begin", "run": runID, "kind": j.kind, "gas": eu.GasDigits(j.gas), "mcase": curCase,
 		"codeLen": len(j.code), "dataLen": len(j.data), "create": j.create, "value": int(j.value), "depth": 0})
 	rec.BeginRun(runID)
 	var (
@@ -458,6 +462,16 @@ func classValue(c string) *big.Int {
 		return big.NewInt(1)
 	case "32":
 		return big.NewInt(32)
+	case "31":
+		return big.NewInt(31)
+	case "33":
+		return big.NewInt(33)
+	case "127":
+		return big.NewInt(127)
+	case "128":
+		return big.NewInt(128)
+	case "160":
+		return big.NewInt(160)
 	case "2300":
 		return big.NewInt(2300)
 	case "50000":
@@ -572,6 +586,10 @@ func compileMem(m memCase) []byte {
 		a.Push(z).Push(x).PushInt(0).Op(eu.CREATE, eu.POP)
 	case "extcodecopy":
 		a.Push(z).PushInt(0).Push(x).PushInt(0x1003).Op(eu.EXTCODECOPY)
+	case "auth":
+		// 32 bytes of memory, then AUTH(authority, offset, length)
+		a.PushInt(1).PushInt(0).Op(eu.MSTORE)
+		a.Push(z).Push(x).PushInt(0x1003).Op(0xf6, eu.POP)
 	case "callargs":
 		a.Push(z).Push(x).Push(z).Push(x).PushInt(0).PushInt(0x1003).PushInt(1000).Op(eu.CALL, eu.POP)
 	default:
@@ -607,12 +625,15 @@ func runScript(path string) {
 		}
 	}
 	for _, m := range sc.Mem {
+		curCase = map[string]interface{}{"op": m.Op, "a": m.A, "b": m.B, "c": m.C}
 		execute(job{kind: "tlc-mem", code: compileMem(m), data: []byte{1, 2, 3, 4, 5}, gas: 1000000})
+		curCase = noCase
 	}
 }
 
 func main() {
 	out := flag.String("out", "trace.ndjson", "ndjson trace")
+	probe := flag.Bool("probe-copier-wrap", false, "one-off probe (run it under an address-space limit): CALLDATACOPY whose Proposal026 cost wraps around 2^64")
 	statePath := flag.String("statescript", "", "TLC-generated cases of the state-access gas extension (json); runs only these")
 	scriptPath := flag.String("script", "", "TLC-generated call sequences and memory operand cases (json)")
 	scratch := flag.String("scratch", "", "scratch directory for the node's stores")
@@ -663,6 +684,18 @@ func main() {
 		runStateScript(*statePath, st, m, common.IsProposal015())
 		st.Close()
 		fmt.Printf("c11state: runs=%d events=%d\n", stats["state_runs"], st.N)
+		return
+	}
+	if *probe {
+		// memory 3239466407 words, copy 3160320941 words: ((3w + w*w/512)*30 + 3*copy)*30 = 2^64 + 74
+		code := eu.NewAsm().Push(new(big.Int).SetUint64(0x178bd575a0).Bytes()).PushInt(0).Push(new(big.Int).SetUint64(0x96f53f40).Bytes()).
+			Op(eu.CALLDATACOPY, eu.STOP).Bytes()
+		tr = vutil.NewTrace(*out)
+		rec = eu.NewRecorder(tr, eu.Options{Gas: true, Frames: true})
+		rec.Install()
+		execute(job{kind: "probe", code: code, gas: 1000000})
+		tr.Close()
+		fmt.Println("probe finished without a crash")
 		return
 	}
 	tr = vutil.NewTrace(*out)
